@@ -41,6 +41,15 @@ Extra == /\ nreq > 0
             \/ ("timeout" \in Extras /\ h' = h \o <<[op |-> "adv", to |-> "deadline"], [op |-> "process"]>>)
             \/ ("process" \in Extras /\ LastOp # "process" /\ h' = Append(h, [op |-> "process", r |-> "all", w |-> "all"]))
          /\ UNCHANGED <<cfg, nreq>>
-GNext == Len(h) < MaxLen /\ (Exchange \/ Reply \/ Adv \/ Extra)
+(* a request left unanswered for now, and a late reply to the earliest transmission of an earlier request
+   (possibly sent with a client cookie that has been replaced since) *)
+Pending == /\ "pending" \in Extras /\ nreq < MaxReq
+           /\ h' = Append(h, [op |-> "query", t |-> nreq + 1, name |-> Name(nreq + 1), qt |-> 1])
+           /\ nreq' = nreq + 1 /\ UNCHANGED cfg
+LateReply == /\ "latereply" \in Extras /\ nreq > 1
+             /\ \E t \in 1..(nreq - 1), k \in Kinds :
+                   h' = Append(h, [ReplyStep(k) EXCEPT !.tx = "name:n" \o ToString(t) \o "."] @@ [nth |-> 1])
+             /\ UNCHANGED <<cfg, nreq>>
+GNext == Len(h) < MaxLen /\ (Exchange \/ Reply \/ Adv \/ Extra \/ Pending \/ LateReply)
 Emit == h # <<>> => PrintT(ToJson([cfg |-> cfg, steps |-> h]))
 =============================================================================
